@@ -233,6 +233,7 @@ func hexOf(b []byte) []byte {
 // probeQueries: questions asked after every step of a directed history.
 func probeQueries(r *Rng) []Query {
 	return []Query{
+		{Kind: "header"},
 		{Kind: "many"},
 		{Kind: "many", Sels: []Selector{{Kind: SPartType, N: int64(r.Intn(5))}}},
 		{Kind: "one", Sels: []Selector{{Kind: SPartType, N: 2}}},
